@@ -49,29 +49,6 @@ H("C14", "adt", _A, "thorough", "C14.e MCNK without sub-chunks: header content s
   ["c14e_mcnk_bare_header"], _mcnk,
   "all MCNK header fields symbolic (flags, indices, counts, stale offsets and sizes, holes, position, ...) except unused/_padding = 0",
   "MCNK at file offset 16, no sub-chunks", assumes=["header fields `unused` and `_padding` are zero (padding, not content)"], stubs=_ST2, timeout=2400)
-H("C14", "adt", _A, "thorough", "C14.e MCNK with MCLY + MCSE: counts == list lengths, header offsets point at chunks of the named type, sub-chunks tile the payload, content survives, parse->write reproduces the bytes",
-  ["c14e_mcnk_layers_emitters"], _mcnk,
-  "header symbolic as above; 2 texture layers and 1 sound emitter with symbolic fields", "MCNK at file offset 16; 2 layers, 1 emitter",
-  assumes=["header fields `unused` and `_padding` are zero"], stubs=_ST2, timeout=2400)
-H("C14", "adt", _A, "thorough", "C14.e MCNK with MCRF: references survive write->parse when the header counts describe the list",
-  ["c14e_mcnk_refs"], _mcnk, "header symbolic; 2 references symbolic; n_doodad_refs in 0..=2 symbolic, n_map_obj_refs = 2 - n_doodad_refs",
-  "MCNK at file offset 16; 2 references",
-  assumes=["n_doodad_refs + n_map_obj_refs == number of references (McrfChunk::validate_counts; known finding KF-C14-mcrf-counts otherwise)",
-           "phantom MCRD/MCRW copies returned by the parser are not compared (known finding KF-C14-mcrf-phantom)"], stubs=_ST2, timeout=2400)
-H("C14", "adt", _A, "thorough", "C14.e MCNK with MCVT + MCNR: packed height/normal offsets point at MCVT/MCNR, all 145 heights and normals survive",
-  ["c14e_mcnk_heights_normals"], _mcnk, "header symbolic; 145 heights (f32 bit patterns) and 145 normals symbolic; probe vertex index symbolic",
-  "MCNK at file offset 16; 145 vertices (format constant)",
-  assumes=["MCNK flag 0x200 (high-res holes re-purpose the offset field, MoP 5.3+) is clear", "MCNR padding is the 13 zero bytes of the format"], stubs=_ST2, timeout=2400)
-H("C14", "adt", _A, "thorough", "C14.e MCNK with MCCV: ofs_mccv points at MCCV, all 145 colours survive (BGRA order)",
-  ["c14e_mcnk_vertex_colors"], _mcnk, "header symbolic; 145 BGRA colours symbolic; probe index symbolic", "145 vertices",
-  assumes=["MCNK flag 0x40 (has_mccv) set by the caller (known finding KF-C14-mccv-flag otherwise)"], stubs=_ST2, timeout=2400)
-H("C14", "adt", _A, "thorough", "C14.e MCNK with MCLQ: ofs_liquid points at MCLQ, size_liquid == 8 + payload, 81 vertices and 64 tile flags survive",
-  ["c14e_mcnk_liquid"], _mcnk + ["chunks::mcnk::mclq::MclqChunk::{read_options,write_options}"],
-  "header symbolic; height range, 81 liquid vertices, 64 tile flags symbolic; probe indices symbolic", "81 vertices (format constant); 8 bytes follow the MCNK in the file",
-  assumes=["min/max height finite, within +-10000 and ordered (MclqChunk::has_valid_heights)", "MCNK liquid-type flags 0x08/0x10/0x20 clear",
-           "at least 8 bytes follow the MCLQ payload in the file (known finding KF-C14-mclq-size otherwise)"], stubs=_ST2, timeout=2400)
-H("C14", "adt", _A, "thorough", "C14.e witness: MCRF grows on parse->write", ["c14e_mcnk_refs_rewrite_grows_witness"], _mcnk,
-  "concrete: one MCNK with MCRF [1, 2], n_doodad_refs = 2", "one input", stubs=_ST2, timeout=2400, expect="witness:KF-C14-mcrf-phantom")
 H("C14", "adt", _A, "thorough", "C14.e witness: MCRF lost when header counts are 0", ["c14e_mcnk_refs_zero_counts_witness"], _mcnk,
   "concrete: one MCNK with MCRF [1, 2], header counts 0", "one input", stubs=_ST2, timeout=2400, expect="witness:KF-C14-mcrf-counts")
 H("C14", "adt", _A, "thorough", "C14.e witness: MCDD written but never parsed", ["c14e_mcnk_mcdd_dropped_witness"], _mcnk,
